@@ -95,6 +95,12 @@ class Lin:
                     return lin_add(self.of_value(rng[3][1]), self.of_value(rng[3][0]), -1)
                 if rng[2] == "RangeTo":
                     return self.of_value(rng[3][0])
+                if rng[2] == "RangeFull":
+                    return self.len_of(base)
+                if rng[2] == "RangeToInclusive":
+                    return lin_add(self.of_value(rng[3][0]), const(1))
+            if "RangeFull" in repr(rng)[:80] and rng[0] in ("sym", "unit", "c"):
+                return self.len_of(base)
         if v[0] == "arr":
             return const(len(v[1]))
         if t and t[0] == "mut" and t[1][0].endswith("Vec::<T, A>::resize") and len(t) > 5 and t[5]:
